@@ -84,9 +84,9 @@ def check(code, checker=None, visitor_cls=NameCheckVisitor, keep_module=False, w
     tree = ast.parse(code)
     mod = make_module(code)
     try:
-        with ClassAttributeChecker(enabled=True, options=checker.options) as ac:
-            v = visitor_cls(mod.__name__, code, tree, module=mod, attribute_checker=ac, checker=checker, **kw)
-            with contextlib.redirect_stderr(io.StringIO()), contextlib.redirect_stdout(io.StringIO()):
+        with contextlib.redirect_stderr(io.StringIO()), contextlib.redirect_stdout(io.StringIO()):
+            with ClassAttributeChecker(enabled=True, options=checker.options) as ac:
+                v = visitor_cls(mod.__name__, code, tree, module=mod, attribute_checker=ac, checker=checker, **kw)
                 res = v.check()
     finally:
         if not keep_module and not want_module:
